@@ -758,6 +758,16 @@ Check C11_wasm_routes_are_set : forall stored parsed : config,
   wbody_parser wasm_set_from_object_body = Some WFromJsObject.
 Print Assumptions C11_wasm_routes_are_set.
 
+(* the fuel of the Value parser (2·|text|+2) is never the reason for a refusal: every larger fuel gives the same
+   Value or the same refusal — so `None` always means serde_json refuses the TEXT (syntax, number out of range,
+   nesting deeper than 127) *)
+Theorem C11_value_parser_fuel_stable : forall (nf : list N -> bool) (s : list N) (f : nat),
+  json_fuel s <= f -> pval nf f 128 s = pval nf (json_fuel s) 128 s.
+Proof. exact parse_json_fuel_stable. Qed.
+Check C11_value_parser_fuel_stable : forall (nf : list N -> bool) (s : list N) (f : nat),
+  json_fuel s <= f -> pval nf f 128 s = pval nf (json_fuel s) 128 s.
+Print Assumptions C11_value_parser_fuel_stable.
+
 (* non-vacuity: a text with whitespace, \u escapes in both hex cases and a duplicate key is accepted by the typed
    parser (the hypothesis of C11_value_route_of_typed) and by the Value route; complete settings texts through
    from_str::<Value> + from_lsp_config: unknown member with numbers / nesting ignored, duplicate rule key (later wins),
